@@ -98,8 +98,12 @@ func (g *c14gen) params() string {
 			if g.r.Intn(4) == 0 {
 				w += "_id"
 			}
+			if g.r.Intn(12) == 0 {
+				// names real schemas use that are awkward for a Go generator (keywords, imported packages, locals of the generated body)
+				w = []string{"ok", "err", "resp", "c", "type", "errors", "range", "func", "reflect", "params", "data", "bytes", "len", "error", "string", "tl", "msg", "id", "url", "hash"}[g.r.Intn(20)]
+			}
 			k := strings.ReplaceAll(w, "_", "")
-			if !names[k] && w != "range" && w != "type" && w != "flags" {
+			if !names[k] && w != "flags" {
 				names[k] = true
 				return w
 			}
